@@ -376,7 +376,7 @@ def _linger(d):
         Thread(target=time.sleep, args=(d,), name='lingering').start()
 
 
-def p_pool(x, poison=(), fail_after=None, d=0.0, linger=0.0, origin_only=()):
+def p_pool(x, poison=(), fail_after=None, d=0.0, linger=0.0, origin_only=(), tagk=None):
     """pool target: x is a unique input id; raises on poison inputs; dies after `fail_after` calls (per worker); with `linger`
     the dying worker's process stays around for a while after its pipes are closed"""
     truth('p-enter', x=x)
@@ -405,7 +405,7 @@ def p_pool(x, poison=(), fail_after=None, d=0.0, linger=0.0, origin_only=()):
         _linger(linger)
         raise MyError(f'worker gives up after {fail_after} calls')
     truth('p-leave', x=x)
-    return ['r', x]
+    return ['r', x] if tagk is None else ['r', x, tagk]
 
 
 TARGETS['p_pool'] = p_pool
